@@ -386,7 +386,9 @@ class PixelFormat:
 
 
 # ZRLE helpers
-def _zrle_next_bit(it: Iterator[int], pixels_in_tile: int) -> Iterator[int]:
+def _zrle_next_bit(
+    it: Iterator[int], pixels_in_tile: int, width: int
+) -> Iterator[int]:
     num_pixels = 0
     while True:
         b = next(it)
@@ -398,9 +400,13 @@ def _zrle_next_bit(it: Iterator[int], pixels_in_tile: int) -> Iterator[int]:
             num_pixels += 1
             if num_pixels == pixels_in_tile:
                 return
+            if num_pixels % width == 0:
+                break  # each row of the tile is padded to a whole byte
 
 
-def _zrle_next_dibit(it: Iterator[int], pixels_in_tile: int) -> Iterator[int]:
+def _zrle_next_dibit(
+    it: Iterator[int], pixels_in_tile: int, width: int
+) -> Iterator[int]:
     num_pixels = 0
     while True:
         b = next(it)
@@ -412,9 +418,13 @@ def _zrle_next_dibit(it: Iterator[int], pixels_in_tile: int) -> Iterator[int]:
             num_pixels += 1
             if num_pixels == pixels_in_tile:
                 return
+            if num_pixels % width == 0:
+                break  # each row of the tile is padded to a whole byte
 
 
-def _zrle_next_nibble(it: Iterator[int], pixels_in_tile: int) -> Iterator[int]:
+def _zrle_next_nibble(
+    it: Iterator[int], pixels_in_tile: int, width: int
+) -> Iterator[int]:
     num_pixels = 0
     while True:
         b = next(it)
@@ -426,6 +436,8 @@ def _zrle_next_nibble(it: Iterator[int], pixels_in_tile: int) -> Iterator[int]:
             num_pixels += 1
             if num_pixels == pixels_in_tile:
                 return
+            if num_pixels % width == 0:
+                break  # each row of the tile is padded to a whole byte
 
 
 class RFBClient(Protocol):  # type: ignore[misc]
@@ -1157,11 +1169,11 @@ class RFBClient(Protocol):  # type: ignore[misc]
                 else:
                     palette = [cpixel(it) for _ in range(palette_size)]
                     if palette_size == 2:
-                        next_index = _zrle_next_bit(it, pixels_in_tile)
+                        next_index = _zrle_next_bit(it, pixels_in_tile, tw)
                     elif palette_size == 3 or palette_size == 4:
-                        next_index = _zrle_next_dibit(it, pixels_in_tile)
+                        next_index = _zrle_next_dibit(it, pixels_in_tile, tw)
                     else:
-                        next_index = _zrle_next_nibble(it, pixels_in_tile)
+                        next_index = _zrle_next_nibble(it, pixels_in_tile, tw)
 
                     for palette_index in next_index:
                         pixel_data.extend(palette[palette_index])
